@@ -1051,6 +1051,11 @@ func (w *World) getArchetypes(filter Filter) []*archetype {
 			continue
 		}
 
+		if !nd.HasRelation {
+			arches = append(arches, nd.archetype)
+			continue
+		}
+
 		if rf, ok := filter.(*RelationFilter); ok {
 			target := rf.Target
 			if arch, ok := nd.archetypeMap[target]; ok {
